@@ -180,8 +180,12 @@ def gen_case(world, tier, prop):
   max_ops = 14 if tier == 'thorough' else 10
   threads = [gen_thread(rng, t, max_ops) for t in range(nthreads)]
   r = sw.random()
-  if r < 0.6:
+  if r < 0.4:
     policy = {'kind': 'random', 'p': sw.choice([0.02, 0.1, 0.3])}
+  elif r < 0.6:
+    policy = {'kind': 'hot', 'p': sw.choice([0.003, 0.01, 0.03]),
+              'p_hot': sw.choice([0.05, 0.15, 0.4]),
+              'hold': sw.choice([0, 300, 3000]), 'novel': sw.choice([0, 1, 3])}
   else:
     policy = {'kind': 'pct', 'd': sw.randint(1, 3), 'horizon': sw.choice([300, 1500, 5000])}
   return {'threads': threads, 'policy': policy, 'sched_seed': world.seed}
